@@ -531,3 +531,16 @@ impl SampleQueueReceiver {
 pub fn verif_sample_queue_channel(capacity: usize) -> (SampleQueueSender, SampleQueueReceiver) {
     sample_queue_channel(capacity)
 }
+
+/// Verification hook: queue pair whose ring indices start at `start` (index wrap-around).
+#[cfg(rustrtc_verif)]
+pub fn verif_sample_queue_channel_with_start(
+    capacity: usize,
+    start: usize,
+) -> (SampleQueueSender, SampleQueueReceiver) {
+    let (mut sender, mut receiver) = sample_queue_channel(capacity);
+    let queue = Arc::new(SpscRing::verif_with_start(capacity, start));
+    sender.queue = queue.clone();
+    receiver.queue = queue;
+    (sender, receiver)
+}
